@@ -14,6 +14,7 @@ import (
 	"context"
 	"encoding/base64"
 	"encoding/binary"
+	"encoding/hex"
 	"encoding/json"
 	"fmt"
 	"hash/fnv"
@@ -146,6 +147,7 @@ type frame struct {
 	Av  int    `json:"av"`
 	Gz  string `json:"gz"`
 	Pay string `json:"pay"`
+	Raw string `json:"raw,omitempty"` // pay = "short": the body content in hex (else picked seeded from shortBodies)
 }
 type caseBeh struct {
 	Kind  string `json:"kind"` // frame | random | mutant
@@ -157,7 +159,11 @@ type caseBeh struct {
 }
 
 func (f *frame) class() string {
-	return fmt.Sprintf("k=%s:z=%v:e=%v:hdr=%d:sc=%s:av=%d:gz=%s:pay=%s", f.K, f.Z, f.E, f.Hdr, f.Sc, f.Av, f.Gz, f.Pay)
+	s := fmt.Sprintf("k=%s:z=%v:e=%v:hdr=%d:sc=%s:av=%d:gz=%s:pay=%s", f.K, f.Z, f.E, f.Hdr, f.Sc, f.Av, f.Gz, f.Pay)
+	if f.Raw != "" {
+		s += "=" + f.Raw
+	}
+	return s
 }
 
 var (
@@ -269,6 +275,28 @@ func edgeJSON(k, pay string, r *rand.Rand) []byte {
 	return nil
 }
 
+// shortBodies: 1..5 byte bodies whose VALUES matter to decoders - prefixes of multi-byte markers
+var shortBodies = []string{
+	"ef", "efbb", "efbbbf", "efbbbf7b", "efbbbf7b7d", // UTF-8 BOM and its prefixes, BOM + "{", BOM + "{}"
+	"feff", "fffe", "fffe0000", "0000feff", // UTF-16 / UTF-32 BOMs
+	"c3", "e2", "e282", "f0", "f09f", "f09f98", "eda080", "c0af", "80", // truncated / invalid UTF-8 sequences
+	"1f", "1f8b", "1f8b08", "1f8b0800", // gzip magic prefixes
+	"7b", "5b", "22", "2d", "74", "6e", "66", "7b22", "5b5b", "2230", "6e75", "6e756c", "747275", "2d30", "7b7d00", // JSON openers and prefixes of literals
+	"00", "0000", "000000", "ff", "ffff", "ffffff", "ffffffffff", "0a", "20", "2020", "5c", "225c", "225c75", // NUL, FF, white space, escapes
+}
+
+func (f *frame) short(r *rand.Rand) []byte {
+	h := f.Raw
+	if h == "" {
+		h = shortBodies[r.Intn(len(shortBodies))]
+	}
+	b, err := hex.DecodeString(h)
+	if err != nil {
+		panic(err)
+	}
+	return b
+}
+
 // content builds the (uncompressed) body content of class pay at exactly n bytes (n < 0: natural size).
 func content(k, pay string, n int, r *rand.Rand) []byte {
 	var b []byte
@@ -373,6 +401,11 @@ func (f *frame) body(r *rand.Rand) (body []byte, declared uint32) {
 		size = maxBody
 	}
 	switch {
+	case f.Pay == "short" && f.Av == 2:
+		full = f.short(r)
+		if f.Z {
+			full = gz(gzip.BestSpeed, full)
+		}
 	case f.Av < 2: // truncated body: content does not matter
 		if size < 0 {
 			size = 600
@@ -749,6 +782,18 @@ func extra(env *fw.Env) []json.RawMessage {
 			}
 		}
 	}
+	// every short body for every kind, raw and gzip-compressed
+	for _, k := range []string{"CMD", "RESP", "HS", "TOPEN", "PAY", "UNK"} {
+		for _, z := range []bool{false, true} {
+			for _, h := range shortBodies {
+				f := frame{K: k, Z: z, Hdr: 4, Sc: "S", Av: 2, Gz: "na", Pay: "short", Raw: h}
+				if z {
+					f.Gz = "ok"
+				}
+				add(caseBeh{Kind: "frame", Frame: &f, Salt: env.Seed})
+			}
+		}
+	}
 	nr, nm := 40, 90
 	if env.Tier == "thorough" {
 		nr, nm = 400, 1500
@@ -894,7 +939,7 @@ func main() {
 		JudgeCfg:    "FramingTraceX.cfg",
 		SelfTest:    selfTest,
 		NonTrivial:  func(t *fw.Trace) bool { return len(t.Events) >= 2 },
-		Rule:        "one case per hostile frame class of spec/Framing.tla (type/flag class x length-field truncation x declared-size class {0,small,16MiB,16MiB+1,2^32-1} x body availability x gzip class {ratio~1, small->just-within-limit, bomb 10x limit, bomb with forged ISIZE, bomb member + tiny member, corrupt, truncated} x payload class {empty, not JSON, JSON of another shape, well-formed, huge, null, scalar, {}, array, too deeply nested, duplicate keys, out-of-range numbers, invalid UTF-8}), concretised with seeded filler, plus seeded random byte strings and single-bit mutants of valid packets; each fed to the real ReadPacket and, when it decodes, to the real SessionManager.HandlePacket on a fresh connection; non-trivial = ReadPacket was reached",
+		Rule:        "one case per hostile frame class of spec/Framing.tla (type/flag class x length-field truncation x declared-size class {0,small,16MiB,16MiB+1,2^32-1} x body availability x gzip class {ratio~1, small->just-within-limit, bomb 10x limit, bomb with forged ISIZE, bomb member + tiny member, corrupt, truncated} x payload class {empty, not JSON, JSON of another shape, well-formed, huge, 1-5 byte marker prefixes (BOMs, truncated UTF-8, gzip magic, JSON openers), null, scalar, {}, array, too deeply nested, duplicate keys, out-of-range numbers, invalid UTF-8}), concretised with seeded filler, plus seeded random byte strings and single-bit mutants of valid packets; each fed to the real ReadPacket and, when it decodes, to the real SessionManager.HandlePacket on a fresh connection; non-trivial = ReadPacket was reached",
 		Assumptions: []string{
 			"allocation = runtime.MemStats.TotalAlloc delta around the call (process-wide; one call at a time, GC and background tickers covered by the 1 MiB slack); bound for ReadPacket 6 x 16 MiB + 1 MiB (DESIGN.md Appendix B), for HandlePacket 12 x 16 MiB + 1 MiB (spec/FramingTrace.tla)",
 			"hang = the call has not returned after 40 s (largest legitimate case measured: well under 2 s)",
